@@ -256,6 +256,32 @@ pub fn quote(s: &[u8], out: &mut Vec<u8>) -> Result<(), String> {
     Ok(())
 }
 
+/// strconv.QuoteToASCII: as `quote`, but every non-ASCII rune is written \uXXXX / \UXXXXXXXX
+pub fn quote_ascii(s: &[u8], out: &mut Vec<u8>) -> Result<(), String> {
+    let mut tmp = Vec::new();
+    // ASCII part and invalid bytes exactly as quote() does; printable non-ASCII runes escaped
+    match std::str::from_utf8(s) {
+        Ok(text) => {
+            out.push(b'"');
+            for c in text.chars() {
+                if (c as u32) < 0x80 {
+                    tmp.clear();
+                    let mut b = [0u8; 4];
+                    quote(c.encode_utf8(&mut b).as_bytes(), &mut tmp)?;
+                    out.extend_from_slice(&tmp[1..tmp.len() - 1]);
+                } else if (c as u32) < 0x10000 {
+                    out.extend_from_slice(format!("\\u{:04x}", c as u32).as_bytes());
+                } else {
+                    out.extend_from_slice(format!("\\U{:08x}", c as u32).as_bytes());
+                }
+            }
+            out.push(b'"');
+            Ok(())
+        }
+        Err(_) => Err("%+q of invalid utf-8".into()),
+    }
+}
+
 #[derive(Clone, Copy, PartialEq)]
 enum ArgKind {
     Str,
@@ -348,6 +374,15 @@ pub fn sprintf(types: &TypeTable, format: &[u8], args: &[Value]) -> Result<Vec<u
             out.extend_from_slice(b"%!(NOVERB)");
             break;
         }
+        // the `+` flag (only with %q: strconv.QuoteToASCII)
+        let plus = format[i] == b'+';
+        if plus {
+            i += 1;
+            if i >= format.len() {
+                out.extend_from_slice(b"%!(NOVERB)");
+                break;
+            }
+        }
         // decode verb (may be multi-byte)
         let rest = &format[i..];
         let verb = match std::str::from_utf8(&rest[..rest.len().min(4)]) {
@@ -362,6 +397,9 @@ pub fn sprintf(types: &TypeTable, format: &[u8], args: &[Value]) -> Result<Vec<u
         }
         if !matches!(verb, 'd' | 'v' | 's' | 'q' | 't') {
             return Err(format!("sprintf verb %{}", verb));
+        }
+        if plus && verb != 'q' {
+            return Err(format!("sprintf verb %+{}", verb));
         }
         if argi >= args.len() {
             out.extend_from_slice(b"%!");
@@ -392,7 +430,11 @@ pub fn sprintf(types: &TypeTable, format: &[u8], args: &[Value]) -> Result<Vec<u
             'q' => match (k, a) {
                 (ArgKind::Str, Value::Iface(_, inner)) => {
                     if let Value::Str(s) = &inner.0 {
-                        quote(s, &mut out)?;
+                        if plus {
+                            quote_ascii(s, &mut out)?;
+                        } else {
+                            quote(s, &mut out)?;
+                        }
                     }
                 }
                 (ArgKind::Int, _) => return Err("sprintf %q of integer".into()),
